@@ -5,6 +5,27 @@ NOTES = ("Every claimed property: theorems in coq/Properties/<id>.v (only `exact
          "Print Assumptions), model in coq/Model, correspondence drivers in harness/. Known findings: KNOWN_FINDINGS.jsonl. See DESIGN.md.")
 NOT_APPLICABLE = {}
 META = {
+    "C13": {
+        "text": "Coq theorems over a transition system of localsubscriber.go with one step per lock operation / atomic access / channel operation, for any number "
+                "of threads, any method sequences and every schedule: no step other than a mutex acquisition or the consumer's receive can block; critical sections "
+                "always progress; the buffer never exceeds its capacity and the consumer sees exactly what was sent; after an overflow (live, replay, queue flush) "
+                "or Disconnect nothing more is sent, the disconnecting thread closes the channel itself, and the consumer observes the end. Tied to the code by "
+                "sequential histories around the real capacity and by schedule-steered runs of the instrumented current sources. Partial: wall-clock bounds and "
+                "the handler-level 'no longer listed' / 'others unaffected' parts are exercised by the harness, not yet theorems.",
+        "design_ref": "DESIGN.md §5 C13, §3.1",
+        "note": "trusted: Coq kernel + vm_compute; Go memory model (DRF-SC); rewriter and scheduler; atomic-method outcome model as over-approximation",
+        "technique": "Coq proof (inductive invariant of a fine-grained LTS over all schedules) + sequential and schedule-steered correspondence evaluated in Coq",
+    },
+    "C14": {
+        "text": "Coq theorems over the same transition system: for every schedule and any number of threads no close/send on a closed channel and no bad unlock "
+                "(C14_no_panic), mutual exclusion of the liveMutex/outMutex critical sections (all other shared accesses are atomic: data-race freedom of the "
+                "subscriber), and deadlock freedom (lock order liveMutex < outMutex, critical sections never block). Tied to the code by exhaustive "
+                "preemption-bounded schedule exploration of the instrumented current sources (panic / all-blocked flags and outcome sets compared). "
+                "Partial: transport-level locks and skipfilter internals are covered by the harness and -race stress, not by these theorems.",
+        "design_ref": "DESIGN.md §5 C14, §3.1",
+        "note": "trusted: Coq kernel + vm_compute; Go memory model (DRF-SC); rewriter and scheduler; atomic-method outcome model as over-approximation",
+        "technique": "Coq proof (inductive invariant of a fine-grained LTS over all schedules) + preemption-bounded schedule exploration of the real code",
+    },
     "C02": {
         "text": "Coq theorems over the publish handler's decision function (token validation, Referer parsing and URI templates as parameters): an update reaches "
                 "the transport only for a verified credential whose publish claim covers every topic ('*' anywhere), or in compat-7 mode for public updates; "
